@@ -2,6 +2,7 @@ package main
 
 import (
 	"fmt"
+	"go/token"
 	"go/types"
 	"os"
 	"strings"
@@ -31,6 +32,16 @@ func (fx *fexec) call(x *ssa.Call, st *State) Val {
 		cv := fx.val(callee)
 		return fx.staticCall(x, cv.Fn, args, cv.Bind, st, pos)
 	default:
+		// a call through a package-level function variable that only its package's
+		// initialiser ever assigns (var NewGasMeter = types.NewGasMeter): a static call
+		if u, isLoad := cc.Value.(*ssa.UnOp); isLoad && u.Op == token.MUL {
+			if g, isG := u.X.(*ssa.Global); isG {
+				if gi := vc.eng.globalInfo(g); gi.initOnly && gi.initFn != nil {
+					vc.note("package variable " + g.Pkg.Pkg.Name() + "." + g.Name() + " holds a function and is written only by the package initialiser (checked on the SSA): calls through it are static")
+					return fx.staticCall(x, gi.initFn, args, nil, st, pos)
+				}
+			}
+		}
 		cv := fx.val(cc.Value)
 		if cv.Fn != nil {
 			return fx.staticCall(x, cv.Fn, args, cv.Bind, st, pos)
